@@ -944,6 +944,8 @@ impl Database {
             if header.root_page() != root_page {
                 header.set_root_page(root_page);
             }
+            // every row was deleted and re-inserted: the remembered rightmost leaf is no longer valid
+            header.set_rightmost_hint(0);
         }
         storage.sync()?;
 
@@ -1022,7 +1024,7 @@ impl Database {
             let file_manager = file_manager_guard.as_mut().unwrap();
             let storage_arc = file_manager.table_data_mut(schema_name, table_name)?;
             let mut storage = storage_arc.write();
-            let root_page = {
+            let mut root_page = {
                 let page = storage.page(0)?;
                 TableFileHeader::from_bytes(page)?.root_page()
             };
@@ -1077,8 +1079,18 @@ impl Database {
                 for (key, new_value) in &batch {
                     btree_mut.insert(key, new_value)?;
                 }
+                root_page = btree_mut.root_page();
             }
 
+            {
+                let page = storage.page_mut(0)?;
+                let header = TableFileHeader::from_bytes_mut(page)?;
+                if header.root_page() != root_page {
+                    header.set_root_page(root_page);
+                }
+                // every row was deleted and re-inserted: the remembered rightmost leaf is no longer valid
+                header.set_rightmost_hint(0);
+            }
             storage.sync()?;
         }
 
